@@ -81,6 +81,17 @@ async function main() {
       } catch (e) {
         verdicts = [{ verdict: 'inconclusive', gid, reason: `checker exception: ${e && e.stack ? e.stack.split('\n').slice(0, 3).join(' | ') : e}`, harness: true }];
       }
+      // a panic of the transform on an input the pipeline otherwise survives leaves nothing for the property to hold on
+      if (!['C07', 'C08'].includes(prop)) {
+        for (const vv of g.meta.variants) {
+          const r0 = records[vv.vid];
+          if (r0 && r0.status === 'panic' && r0.baseline_survives !== false && !verdicts.some((x) => x.vid === vv.vid && x.verdict === 'violated')) {
+            const loc = String((r0.panic || {}).location || '?').replace(/^.*\/(visitor|plugin)\//, '$1/').replace(/^.*registry\/src\/[^/]+\//, 'dep:');
+            verdicts = verdicts.filter((x) => !(x.vid === vv.vid && x.verdict === 'inconclusive'));
+            verdicts.push({ verdict: 'violated', gid, vid: vv.vid, feature: `${g.meta.feature}|panic`, nontrivial: true, oracle: 'the transform returns on this input (it panicked)', sig: `${prop}/transform-panicked/${loc}`, detail: r0.panic });
+          }
+        }
+      }
       for (const v of verdicts) {
         v.prop = v.prop ?? prop;
         v.gid = v.gid ?? gid;
